@@ -5,6 +5,8 @@
 
 package webrtc
 
+import "github.com/pion/sdp/v3"
+
 // Spec functions for the contract-based verification in /verif (build tag verif).
 // They are ordinary Go in a pure subset: translated to SMT by govc, compiled
 // into the replay tests as the executable oracle.
@@ -119,4 +121,74 @@ func validICEConnectionState(s ICEConnectionState) bool {
 
 func validDTLSTransportState(s DTLSTransportState) bool {
 	return s >= DTLSTransportStateNew && s <= DTLSTransportStateFailed
+}
+
+// ---- C13: DTLS / ICE roles (RFC 5763 section 5, RFC 4145 section 4.1, RFC 8445 section 6.1.1)
+
+// specAnswerSetup is the a=setup value of the answer: an explicit offer role forces
+// the opposite role (active <-> passive); for an actpass offer (or none) the answerer
+// chooses: its configured role if any, else passive when only the remote is ICE-lite
+// (pion's rule, the answerer is then controlling), else active.
+func specAnswerSetup(cfg, offerRole DTLSRole, remoteLite, localLite bool) sdp.ConnectionRole {
+	switch offerRole {
+	case DTLSRoleClient: // offer said active
+		return sdp.ConnectionRolePassive
+	case DTLSRoleServer: // offer said passive
+		return sdp.ConnectionRoleActive
+	}
+	switch cfg {
+	case DTLSRoleClient:
+		return sdp.ConnectionRoleActive
+	case DTLSRoleServer:
+		return sdp.ConnectionRolePassive
+	}
+	if remoteLite && !localLite {
+		return sdp.ConnectionRolePassive
+	}
+
+	return sdp.ConnectionRoleActive
+}
+
+// specRoleOfSetup: the DTLS role a peer announces with an a=setup value.
+func specRoleOfSetup(setup sdp.ConnectionRole) DTLSRole {
+	switch setup {
+	case sdp.ConnectionRoleActive:
+		return DTLSRoleClient
+	case sdp.ConnectionRolePassive:
+		return DTLSRoleServer
+	}
+
+	return DTLSRoleAuto
+}
+
+// specDTLSRole: the role an endpoint takes given the role the remote announced,
+// its configured answering role and whether it is the ICE controlling agent.
+func specDTLSRole(remote, cfg DTLSRole, controlling bool) DTLSRole {
+	switch remote {
+	case DTLSRoleClient:
+		return DTLSRoleServer
+	case DTLSRoleServer:
+		return DTLSRoleClient
+	}
+	switch cfg {
+	case DTLSRoleServer:
+		return DTLSRoleServer
+	case DTLSRoleClient:
+		return DTLSRoleClient
+	}
+	if controlling {
+		return DTLSRoleServer
+	}
+
+	return DTLSRoleClient
+}
+
+// specICEControlling (RFC 8445 section 6.1.1): if exactly one agent is lite the full
+// agent is controlling; otherwise the offerer is.
+func specICEControlling(weOffer, remoteLite, localLite bool) bool {
+	if remoteLite != localLite {
+		return remoteLite
+	}
+
+	return weOffer
 }
